@@ -202,6 +202,23 @@ def guard_for(path, ev_index, ev, kind, consts):
         # RangeFull never panics
         if idx is not None and idx[0] == "agg" and idx[1].endswith("RangeFull"):
             return "RangeFull"
+        # buf[..min(.., buf.len())]
+        if idx is not None and idx[0] == "agg" and idx[1].endswith("RangeTo") and idx[3] and recv is not None:
+            end = idx[3][0]
+            if end[0] == "call" and pa.short(end[1]) == "min" and any(_same_call(a_, ("call", "len", (recv,))) for a_ in end[2]):
+                return "range end = min(.., len() of the same slice)"
+        return None
+    if kind == "panic":
+        # assert!(chunk.len() <= X) where chunk was cut by take_chunk(.., X): the failing branch cannot be taken
+        if prior:
+            nf = expr.cmp_nf(prior[-1][3], prior[-1][2])
+            if nf and nf[1] == ">" and _is_len_call(nf[0]) and nf[0][2]:
+                src_ = nf[0][2][0]
+                while src_[0] in ("proj", "okval"):
+                    src_ = src_[1]
+                if src_[0] == "call" and pa.short(src_[1]) == "take_chunk" and len(src_[2]) >= 2 and _same_call(src_[2][-1], nf[2]) and \
+                        not _touched_between(path, src_[3], ev_index, nf[2]):
+                    return "asserted bound is the very limit the chunk was taken with (take_chunk(.., limit))"
         return None
     if kind.startswith("api:HeaderMap::"):
         if kind.endswith("with_capacity") and argv:
@@ -258,6 +275,31 @@ def guard_for(path, ev_index, ev, kind, consts):
             return None
         return None
     return None
+
+
+def _same_call(a, b):
+    """Two values are the same read-only length query of the same object (`buf.len()` asked twice), whatever the call sites."""
+    if a == b:
+        return True
+    return a[0] == "call" and b[0] == "call" and pa.short(a[1]) == pa.short(b[1]) and pa.short(a[1]) in ("len", "remaining", "capacity") and \
+        tuple(a[2]) == tuple(b[2])
+
+
+def _touched_between(path, from_site, to_index, q):
+    """A call between the call site `from_site` and event `to_index` receives the object q is asked of (other than a length query)."""
+    if q[0] != "call" or not q[2]:
+        return False
+    obj = q[2][0]
+    seen = False
+    for e in path.events[:to_index]:
+        if e[0] != "call":
+            continue
+        if e[1] == from_site:
+            seen = True
+            continue
+        if seen and any(a == obj for a in e[3]) and e[2].cname not in ("len", "remaining", "capacity", "is_empty", "deref", "deref_mut", "chunk"):
+            return True
+    return False
 
 
 def _same_buf(x, b):
